@@ -472,6 +472,23 @@ fn gen(dir: &str) {
     } }
     for low in 0..16u8 { let p = rand_byron_parts(&mut r); let mut v = byron_variant(&mut r, &p, 99); v[0] = 0x80 | low;
         emit(&mut out, format!("dec {}", hex::encode(&v))); }
+    // non-minimal spellings of the OUTER array head of a Byron address (first byte 0x98..0x9b, 0x9f): not an address
+    // header at all (nibble 9) although ByronAddress::from_bytes reads them; alone and combined with re-spelt inner heads;
+    // through the bytes / hex / embedded entry points (dec), Base58 (b58a) and bech32 (becha)
+    let respell = |v: &[u8], how: u64| -> Vec<u8> {
+        let mut o: Vec<u8> = match how { 0 => vec![0x98, 0x02], 1 => vec![0x99, 0x00, 0x02], 2 => vec![0x9a, 0, 0, 0, 2],
+            3 => vec![0x9b, 0, 0, 0, 0, 0, 0, 0, 2], 4 => vec![0x9f], 5 => vec![0x98, 0x03], 6 => vec![0x90 | (v[1] & 0x0f)], _ => vec![0x82] };
+        o.extend(&v[1..]); if how == 4 { o.push(0xff); } o };
+    for rep in 0..(if thorough { 12 } else { 3 }) { for how in 0..7u64 { for inner in [99u64, 20, 23, 28, 13, 9, 7, 15] {
+        if rep > 0 && inner != 99 && r.chance(1, 2) { continue; }
+        let p = rand_byron_parts(&mut r);
+        let v = respell(&byron_variant(&mut r, &p, inner), how);
+        emit(&mut out, format!("dec {}", hex::encode(&v)));
+        if inner == 99 || rep == 0 {
+            emit(&mut out, format!("becha {} {}", hexd(r.pick(&["addr", "addr_test"]).as_bytes()), hex::encode(&v)));
+            emit(&mut out, format!("b58a {}", hexd(verif_base58::encode(&v).as_bytes())));
+        }
+    } } }
     // 5. Base58 codec on arbitrary bytes and text
     let n_b58 = if thorough { 3000 } else { 600 };
     emit(&mut out, "b58 -".to_string());
